@@ -810,3 +810,247 @@ fn c10_new_http10_close_get() {
 fn c10_new_http11_keepalive_get() {
     c10_new_case(2, 2, false, 0);
 }
+
+// =====================================================================================
+// C11 — Expect: 100-continue handshake (httparse replaced by the script environment)
+// =====================================================================================
+use crate::parser::verif_h as ph;
+
+/// kind/version/code as in parser_h; `consumed` symbolic where relevant.
+fn c11_try_read_100_case(kind: usize, version: usize, code_sel: usize) {
+    // code_sel: 0 None, 1 => 100, 2 => any other valid status (symbolic), 3 => 42 (invalid status)
+    let code = match code_sel {
+        0 => 0usize,
+        1 => 100,
+        2 => {
+            let c: usize = kani::any();
+            kani::assume(c >= 101 && c <= 999);
+            c
+        }
+        _ => 42,
+    };
+    let l = any_le(8);
+    let buf = [b'H'; 8];
+    let consumed: usize = kani::any();
+    kani::assume(consumed >= 1 && consumed <= l);
+    ph::script(kind, version, code, consumed, if kind == 2 { 1 } else { 0 }, 0);
+    let reasons = any_reasons(false, false);
+    let n0 = reasons_count(&reasons);
+    let holder = CallHolder::WithBody(ch::mk_call_in(2, 0, bh::mk_writer_chunked(false), None, true));
+    let mut flow: Flow<(), Await100> = mk_flow(mk_inner(holder, &reasons, true, true, None, None));
+    let r = flow.try_read_100(&buf[..l]);
+    let version_ok = version == 1 || version == 2;
+    if kind == 0 {
+        // the input ends inside the status line or right after it
+        assert!(matches!(r, Ok(0)), "C11/incomplete-input-decides-nothing-consumes-nothing");
+        assert!(flow.can_keep_await_100() && flow.inner.should_send_body, "C11/incomplete-input-changes-nothing");
+        assert!(flow.inner.close_reason.len() == n0, "C11/incomplete-input-changes-nothing");
+    } else if kind == 1 && version_ok && code_sel == 1 {
+        assert!(matches!(r, Ok(n) if n == consumed), "C11/bare-100-consumed-exactly");
+        assert!(!flow.can_keep_await_100() && flow.inner.should_send_body, "C11/100-leads-to-sending-the-body");
+        assert!(flow.inner.close_reason.len() == n0, "C11/100-does-not-mark-must-close");
+    } else if (kind == 1 && version_ok && code_sel == 2) || kind == 2 {
+        assert!(matches!(r, Ok(0)), "C11/other-response-consumes-nothing");
+        assert!(!flow.can_keep_await_100() && !flow.inner.should_send_body, "C11/other-response-cancels-the-body");
+        assert!(flow.inner.close_reason.len() == n0 + 1, "C11/other-response-marks-must-close");
+        assert!(flow.inner.close_reason[n0] == CloseReason::Not100Continue, "C10/not-100-continue-recorded");
+    } else {
+        assert!(r.is_err(), "C11/malformed-interim-response-is-an-error");
+        assert!(flow.inner.close_reason.len() == n0, "C10/no-reason-without-condition");
+    }
+    kani::cover!(true, "cell-reached");
+    core::mem::forget(r);
+    core::mem::forget(flow);
+}
+
+//@ props: C11 C10 C12
+//@ tier: quick
+//@ unwind: 6
+//@ unwindset: memcmp=12
+//@ timeout: 1200
+//@ mem: 24
+//@ encodes: Flow::<Await100>::try_read_100, parser::try_parse_response::<0> (hoot's glue around httparse), ArrayVec::push, http::response::Builder
+//@ stubs_note: httparse::Response::parse replaced by the script environment (parser_h.rs): every outcome allowed by the stated contract of httparse, one script per execution
+//@ vars: concrete per harness: httparse outcome (Partial with nothing / version only / version+code; Complete with code 100 / any other status 101..=999 (symbolic) / invalid status / unsupported version; TooManyHeaders (= fields follow the status line); other parse error). Symbolic: offered length <= 8, consumed 1..=len, recorded close reasons
+//@ bounds: httparse's outcomes as a set; the bytes themselves are abstracted by the script
+//@ outside: httparse's own tokenizer (trusted, contract spot-validated natively)
+//@ clause: incomplete input decides nothing and consumes nothing; a complete bare 100 is consumed exactly and the body is still due; any other response (with or without fields) consumes nothing, cancels the body and records Not100Continue; malformed input is an error
+#[kani::proof]
+#[kani::stub(httparse::Response::parse, crate::parser::verif_h::httparse_response_script)]
+fn c11_try_read_100_partial_empty() {
+    c11_try_read_100_case(0, 0, 0);
+}
+
+//@ like: c11_try_read_100_partial_empty
+#[kani::proof]
+#[kani::stub(httparse::Response::parse, crate::parser::verif_h::httparse_response_script)]
+fn c11_try_read_100_partial_version_only() {
+    c11_try_read_100_case(0, 2, 0);
+}
+
+//@ like: c11_try_read_100_partial_empty
+#[kani::proof]
+#[kani::stub(httparse::Response::parse, crate::parser::verif_h::httparse_response_script)]
+fn c11_try_read_100_partial_after_status_line() {
+    c11_try_read_100_case(0, 2, 1);
+}
+
+//@ like: c11_try_read_100_partial_empty
+//@ tier: off
+#[kani::proof]
+#[kani::stub(httparse::Response::parse, crate::parser::verif_h::httparse_response_script)]
+fn c11_try_read_100_complete_100() {
+    c11_try_read_100_case(1, 2, 1);
+}
+
+//@ like: c11_try_read_100_partial_empty
+//@ tier: off
+#[kani::proof]
+#[kani::stub(httparse::Response::parse, crate::parser::verif_h::httparse_response_script)]
+fn c11_try_read_100_complete_100_http10() {
+    c11_try_read_100_case(1, 1, 1);
+}
+
+//@ like: c11_try_read_100_partial_empty
+//@ tier: off
+#[kani::proof]
+#[kani::stub(httparse::Response::parse, crate::parser::verif_h::httparse_response_script)]
+fn c11_try_read_100_complete_other_status() {
+    c11_try_read_100_case(1, 2, 2);
+}
+
+//@ like: c11_try_read_100_partial_empty
+#[kani::proof]
+#[kani::stub(httparse::Response::parse, crate::parser::verif_h::httparse_response_script)]
+fn c11_try_read_100_response_with_fields() {
+    c11_try_read_100_case(2, 2, 2);
+}
+
+//@ like: c11_try_read_100_partial_empty
+#[kani::proof]
+#[kani::stub(httparse::Response::parse, crate::parser::verif_h::httparse_response_script)]
+fn c11_try_read_100_parse_error() {
+    c11_try_read_100_case(3, 0, 0);
+}
+
+//@ like: c11_try_read_100_partial_empty
+#[kani::proof]
+#[kani::stub(httparse::Response::parse, crate::parser::verif_h::httparse_response_script)]
+fn c11_try_read_100_unsupported_version() {
+    c11_try_read_100_case(1, 3, 1);
+}
+
+// =====================================================================================
+// C15 / C13 — following a redirect (URL resolution replaced by a stub: C14 is not claimed)
+// =====================================================================================
+
+/// Stub for `AmendedRequest::new_uri_from_location` (url crate out of reach): the target is the
+/// default URI "/"; C15 / C13 clauses checked here do not depend on which target is computed.
+pub(crate) fn p_new_uri_from_location<Body>(_ar: &crate::client::amended::AmendedRequest<Body>, _location: &str) -> Result<Uri, Error> {
+    Ok(Uri::default())
+}
+
+fn c15_redirect_case(mi: usize, code: u16, same_host_policy: bool) {
+    let status = StatusCode::from_u16(code).unwrap();
+    let call: Call<crate::client::call::state::RecvBody, ()> =
+        ch::mk_call_req(ah::mk_request(mi, 2), 4, 0, bh::mk_writer_none(), Some(BodyReader::NoBody), true);
+    let holder = CallHolder::RecvBody(call);
+    let mut flow: Flow<(), Redirect> =
+        mk_flow(mk_inner(holder, &no_reasons(), false, false, Some(status), Some(HeaderValue::from_static("/y"))));
+    let policy = if same_host_policy { RedirectAuthHeaders::SameHost } else { RedirectAuthHeaders::Never };
+    let r = flow.as_new_flow(policy);
+    let retain = code == 307 || code == 308;
+    let body_method = ah::method_needs_body(mi);
+    let is_delete = mi == 4;
+    match r {
+        Err(e) => {
+            core::mem::forget(e);
+            assert!(false, "C15/redirect-with-location-never-errs");
+        }
+        Ok(None) => {
+            assert!(retain && (body_method || is_delete), "C15/not-followed-only-for-307-308-with-body-method-or-delete");
+        }
+        Ok(Some(next)) => {
+            assert!(!(retain && (body_method || is_delete)), "C15/307-308-not-followed-for-body-methods-and-delete");
+            let m = next.method();
+            let expect = if retain || mi == 0 || mi == 1 { mi } else { 0 };
+            assert!(*m == method_at(expect), "C15/method-rewriting-table");
+            assert!(holder_kind(&next.inner.call) == 0, "C09/redirected-flow-starts-in-prepare-without-body");
+            core::mem::forget(next);
+        }
+    }
+    assert!(flow.status() == status, "C15/redirect-reports-status");
+    kani::cover!(true, "cell-reached");
+    core::mem::forget(flow);
+}
+
+//@ props: C15 C13 C09
+//@ tier: quick
+//@ unwind: 6
+//@ unwindset: memcmp=16 from_static=8 from_fn=6 from_bytes=16 parse_hdr=16 eq_ignore_ascii_case=18 3all5check=18 to_str=6
+//@ timeout: 1800
+//@ mem: 24
+//@ encodes: Flow::<Redirect>::as_new_flow (method selection, policy, unset list), StatusExt::is_redirect_retaining_status, MethodExt::need_request_body, AmendedRequest::take_request/set_uri/unset_header, Flow::<Prepare>::new, can_redirect_auth_header
+//@ stubs_note: AmendedRequest::new_uri_from_location replaced by a stub returning the URI "/" (url crate out of reach; C14 not claimed)
+//@ vars: concrete per harness: (method, status) representative pairs, auth policy
+//@ bounds: the listed cells: {GET, HEAD, POST, PUT, DELETE, OPTIONS} x {301, 302, 303, 307, 308} representatives
+//@ outside: the remaining (method, status) pairs (same code path as a listed representative), URL resolution
+//@ clause: 307/308: method preserved, not followed at all for POST/PUT/PATCH/DELETE; other 3xx: HEAD stays HEAD, GET stays GET, everything else becomes GET; the redirect state reports its status
+#[kani::proof]
+#[kani::stub(crate::client::amended::AmendedRequest::new_uri_from_location, p_new_uri_from_location)]
+fn c15_redirect_get_302() {
+    c15_redirect_case(0, 302, false);
+}
+
+// =====================================================================================
+// C01 — read-only queries do not disturb a flow (by reference, all states of the invariant)
+// =====================================================================================
+
+//@ props: C01
+//@ tier: quick
+//@ unwind: 6
+//@ timeout: 900
+//@ encodes: Flow::<SendBody>::can_proceed / is_chunked / calculate_max_input, Flow::<RecvBody>::can_proceed / body_mode / is_on_chunk_boundary, Flow::<RecvResponse>::can_proceed, body::calculate_max_input
+//@ vars: writer: chunked(finished any) | sized(any u64, finished per invariant); reader: NoBody | LengthDelimited(any) | Chunked(any decoder state) | CloseDelimited; output length argument: any value < 2^20
+//@ bounds: calculate_max_input argument < 2^20 here (its arithmetic is decided for all 2^64 values by C18/E2)
+//@ outside: -
+//@ clause: the read-only queries (readiness, chunked?, maximum input, boundary?, body mode) leave writer, reader and flags exactly as they were (calculate_max_input and is_chunked take &mut self, so this is not given by the types)
+#[kani::proof]
+fn c01_queries_are_pure() {
+    let writer = if kani::any() { bh::mk_writer_chunked(kani::any()) } else { bh::any_writer_sized() };
+    let holder = CallHolder::WithBody(ch::mk_call_in(2, 0, writer, None, true));
+    let mut flow: Flow<(), SendBody> = mk_flow(mk_inner(holder, &no_reasons(), true, false, None, None));
+    let n: usize = kani::any();
+    kani::assume(n < (1 << 20));
+    let r1 = flow.can_proceed();
+    let c1 = flow.is_chunked();
+    let m1 = flow.calculate_max_input(n);
+    let r2 = flow.can_proceed();
+    let c2 = flow.is_chunked();
+    let m2 = flow.calculate_max_input(n);
+    assert!(r1 == r2 && c1 == c2 && m1 == m2, "C01/queries-are-repeatable");
+    assert!(bh::writer_same(&ch::writer_of(flow.inner.call.as_with_body()), &writer), "C01/queries-leave-writer-untouched");
+    if !c1 {
+        assert!(m1 == n, "C18/sized-advertises-n");
+    } else {
+        assert!(m1 <= n, "C18/advertised-never-exceeds-n");
+    }
+    core::mem::forget(flow);
+    let k = any_idx(4);
+    let rd = match k {
+        0 => BodyReader::NoBody,
+        1 => BodyReader::LengthDelimited(kani::any()),
+        2 => BodyReader::Chunked(crate::chunk::verif_h::any_dechunker()),
+        _ => BodyReader::CloseDelimited,
+    };
+    let holder = CallHolder::RecvBody(ch::mk_call_in(4, 0, bh::mk_writer_none(), Some(rd), true));
+    let flow: Flow<(), RecvBody> = mk_flow(mk_inner(holder, &no_reasons(), false, false, Some(StatusCode::OK), None));
+    let a1 = (flow.can_proceed(), flow.is_on_chunk_boundary());
+    let _ = flow.body_mode();
+    let a2 = (flow.can_proceed(), flow.is_on_chunk_boundary());
+    assert!(a1 == a2, "C01/queries-are-repeatable");
+    assert!(ch::reader_of(flow.inner.call.as_recv_body()) == Some(rd), "C01/queries-leave-reader-untouched");
+    kani::cover!(c1, "chunked");
+    kani::cover!(k == 2, "chunked-reader");
+    core::mem::forget(flow);
+}
